@@ -127,10 +127,10 @@ def run_vmap(ctx, i, rng):
   from flax import nnx
   C = classes()
   d, n, bsz = rng.randint(1, 3), rng.randint(1, 4), 2
-  axes = dict(w=rng.choice([0, 0, 1, 2, None]), b=rng.choice([0, 1, None]), gain=rng.choice([None, 0, 1]), count=0, stat=rng.choice([0, 1]))
+  axes = dict(w=rng.choice([0, 0, 1, 2, None, -1, -2]), b=rng.choice([0, 1, None, -1]), gain=rng.choice([None, 0, 1]), count=rng.choice([0, -1]), stat=rng.choice([0, 1, -1, -2]))
   if axes['w'] is None and axes['b'] is not None and rng.random() < 0.5:
     axes['b'] = None
-  in_x, out_y = rng.choice([0, 0, 1]), rng.choice([0, 0, 1, 2])
+  in_x, out_y = rng.choice([0, 0, 1, -1]), rng.choice([0, 0, 1, 2, -1])
   desc = dict(d=d, n=n, axes=axes, in_axes_x=in_x, out_axes=out_y)
   with ctx.case('vmap', i, desc, nontrivial=n >= 2):
     nr = np.random.default_rng(rng.getrandbits(32))
@@ -174,7 +174,7 @@ def run_scan(ctx, i, rng):
     order = range(T - 1, -1, -1) if reverse else range(T)
     if mode == 'layers':
       # a stack of T layers (all state has axis 0), carry = activations, no xs: the "scan over layers" pattern
-      axes = dict(w=rng.choice([0, 1, 2, 2]), b=rng.choice([0, 1]), gain=0, count=0, stat=rng.choice([0, 1]))
+      axes = dict(w=rng.choice([0, 1, 2, 2, -1]), b=rng.choice([0, 1, -1]), gain=0, count=0, stat=rng.choice([0, 1, -2]))
       per = [base_arrays(nr, d) for _ in range(T)]
       model = C['Cell'](stacked(per, axes))
       x0 = nr.uniform(-1, 1, size=(bsz, d)).astype(np.float32)
